@@ -41,6 +41,147 @@ FAMILY = [
 ]
 
 
+# method-chain histories: (source, scope spec, [chain variants]) - every ordered pair of (vector, chain) combinations
+CHAIN_FAMILY = [
+    ('(p for p in P)', {'y': [STR('a'), ('str', None)]},
+     [{'filters': ['lambda p: p.u == y'], 'final': ('list',)}]),
+    ('(p for p in P)', {'x': [INT(1), ('int', None)]},
+     [{'filters': ['lambda p: p.b == x', 'lambda p: p.a > 0'], 'final': ('list',)}]),
+    ('(p for p in P if p.a > x)', {'x': [INT(1), INT(2)]},
+     [{'order': [('p.id', False)], 'final': ('list',)}, {'order': [('p.id', False)], 'final': ('slice', 2, 2)}, {'order': [('p.id', False)], 'final': ('slice', 0, 1)},
+      {'order': [('p.id', False)], 'final': ('limit', 0, None)}, {'order': [('p.id', False)], 'final': ('slice', 1, None)}, {'order': [('p.id', False)], 'final': ('limit', 2, 1)}]),
+    ('(p.a for p in P)', {},
+     [{'final': ('aggr', 'COUNT')}, {'distinct': False, 'final': ('aggr', 'MAX')}, {'final': ('aggr', 'MIN')}, {'distinct': True, 'final': ('list',)}, {'final': ('list',)}]),
+    ('(p for p in P)', {},
+     [{'order': [('p.a', False), ('p.id', False)], 'final': ('slice', 0, 2)}, {'order': [('p.a', True), ('p.id', False)], 'final': ('slice', 0, 2)}, {'order': [('p.id', False)], 'final': ('first',)}]),
+]
+
+
+def chain_sql(db, prog):
+    """SQL text and arguments the real method chain would execute (fetch intercepted)"""
+    from pony.orm import db_session
+    final = (prog.chain or {}).get('final', ('list',))
+    with db_session:
+        q = e1.build_query(db, prog)
+        if final[0] == 'aggr':
+            return q._construct_sql_and_arguments(aggr_func_name=final[1])[:2]
+        cap = e1.capture_fetch(q, final)
+        if final[0] == 'first': q, cap = cap
+        return q._construct_sql_and_arguments(cap[0], cap[1])[:2]
+
+
+def chain_histories(rep, db, S, tier, rng, exclude):
+    from checks import c24
+    n = 0
+    for src, spec, chains in CHAIN_FAMILY:
+        combos = [(v, c) for v in vectors(spec) for c in chains]
+        pairs = [(a, b) for a in combos for b in combos if a != b]
+        if tier == 'quick' and len(pairs) > 12: pairs = rng.sample(pairs, 12)
+        for (v1, c1), (v2, c2) in pairs:
+            n += 1
+            p1, p2 = Program(src, v1, 'string', chain=c1), Program(src, v2, 'string', chain=c2)
+            name = 'chain | %s with %r then %s with %r' % (p1.describe(), {k: v[1] for k, v in v1.items()}, p2.describe(), {k: v[1] for k, v in v2.items()})
+            clear_caches(db)
+            try: cold = chain_sql(db, p2)
+            except Exception as ex: cold = ('error', type(ex).__name__)
+            clear_caches(db)
+            try: chain_sql(db, p1)
+            except Exception: pass
+            try: warm = chain_sql(db, p2)
+            except Exception as ex: warm = ('error', type(ex).__name__)
+            if warm != cold:
+                rep.add(Ob(name + ' [differential]', 'concrete-tie', CEX, detail='warm %r | cold %r' % (warm, cold), reproduced=True, key='warm-differs-from-cold',
+                           cex={'first': p1.describe(), 'second': p2.describe(), 'warm': repr(warm)[:300], 'cold': repr(cold)[:300]},
+                           replay='# C05: %s then %s on one Database: warm %r, cold %r\nraise SystemExit(1)\n' % (p1.describe(), p2.describe(), warm, cold)))
+            else:
+                rep.add(Ob(name + ' [differential]', 'concrete-tie', HOLDS))
+            if cold[0] == 'error':
+                rep.add(Ob(name, 'z3', REJECTED, detail='rejected with %s' % cold[1])); continue
+            for ob in c24.check_chain(db, S, p2, exclude):          # decided on the warm caches
+                ob.name = name
+                rep.add(ob)
+    return n
+
+
+def session_histories(rep):
+    """Per-session result cache and entity-level SQL caches (concrete histories on real SQLite, NOT solver-quantified): the second
+    step of each history must return what a cold evaluation of it returns on the same data."""
+    from pony.orm import Database, Required, Optional, PrimaryKey, db_session, select, flush, rollback, commit
+    def fresh():
+        db = Database()
+        class T(db.Entity):
+            id = PrimaryKey(int)
+            v = Required(int)
+            w = Optional(int)
+            name = Optional(str, nullable=True)
+        db.bind('sqlite', ':memory:'); db.generate_mapping(create_tables=True)
+        with db_session:
+            T(id=1, v=1, w=1, name='a'); T(id=2, v=2, name='b'); T(id=3, v=3, w=3)
+        return db
+    H = []
+    def hist(name, known=None):
+        def deco(f): H.append((name, f, known)); return f
+        return deco
+    @hist('select, modify without flush, same select')
+    def _(T):
+        q = lambda: sorted(select(t.v for t in T if t.v > 1))
+        a = q(); T[1].v = 10; return q(), [2, 3, 10]
+    @hist('select, create without flush, same select')
+    def _(T):
+        q = lambda: sorted(select(t.id for t in T))
+        a = q(); T(id=4, v=4); return q(), [1, 2, 3, 4]
+    @hist('select, delete without flush, same select')
+    def _(T):
+        q = lambda: sorted(select(t.id for t in T))
+        a = q(); T[2].delete(); return q(), [1, 3]
+    @hist('select with limit, modify, same select with limit')
+    def _(T):
+        q = lambda: select(t.v for t in T).order_by(-1)[:1]
+        a = q(); T[1].v = 10; return list(q()), [10]
+    @hist('same query, other parameter value')
+    def _(T):
+        def q(x): return sorted(select(t.id for t in T if t.v > x))
+        a = q(1); return q(2), [3]
+    @hist('aggregate, modify without flush, same aggregate', 'aggregate-result-cache-not-invalidated')
+    def _(T):
+        q = lambda: select(t.v for t in T).sum()
+        a = q(); T[1].v = 10; return q(), 15
+    @hist('result list mutated in place by the caller, same query', 'query-result-list-mutated-in-cache')
+    def _(T):
+        q = lambda: select(t.id for t in T).order_by(1)[:]
+        r = q(); r.reverse(); return list(q()), [1, 2, 3]
+    @hist('get(**kw) with a value, then with None for the same keyword')
+    def _(T):
+        a = T.get(v=1, w=1); rollback(); return T.get(v=2, w=None).id, 2
+    @hist('get(**kw) with None, then with a value for the same keyword')
+    def _(T):
+        a = T.get(v=2, w=None); rollback(); return (T.get(v=3, w=3).id, T.get(v=1, w=3)), (3, None)
+    @hist('get(**kw) on a nullable string: None then value')
+    def _(T):
+        a = T.get(name=None); rollback(); return T.get(name='b').id, 2
+    @hist('exists / get after modification')
+    def _(T):
+        a = T.exists(v=10); T[1].v = 10; return T.exists(v=10), True
+    @hist('select of objects, update of another attribute, select by that attribute')
+    def _(T):
+        a = select(t for t in T if t.w == 5)[:]; T[2].w = 5; return [t.id for t in select(t for t in T if t.w == 5)], [2]
+    known = {e['key'] for e in load_known('C05')}
+    for name, f, kkey in H:
+        db = fresh()
+        nm = 'session-history: ' + name
+        try:
+            with db_session:
+                try: got, want = f(db.T)
+                finally: rollback()
+        except Exception as ex:
+            got, want = 'raised %s: %s' % (type(ex).__name__, str(ex)[:80]), 'no exception'
+        if got == want: rep.add(Ob(nm, 'concrete-tie', HOLDS, detail=repr(got)))
+        else:
+            rep.add(Ob(nm, 'concrete-tie', CEX, detail='second step returned %r, a cold evaluation gives %r' % (got, want), reproduced=True, key=kkey,
+                       cex={'history': name, 'got': repr(got), 'expected': repr(want)},
+                       replay='# C05 session history %r: got %r, expected %r (see checks/c05.py session_histories)\nraise SystemExit(1)\n' % (name, got, want)))
+
+
 def vectors(spec):
     names = sorted(spec)
     for combo in itertools.product(*[spec[n] for n in names]):
@@ -140,8 +281,13 @@ def run(tier, seed, only=None):
                     rep.add(ob)
                     if ob.verdict == CEX: rep.sample({'program': name, 'counterexample': ob.cex, 'key': ob.key}, limit=6)
     clear_caches(db)
+    if not only or only == 'chain':
+        S3 = symdb.build(db, R=3, strlen=2)
+        n += chain_histories(rep, db, S3, tier, rng, exclude + [e['key'] for e in load_known('C24')])
+        clear_caches(db)
     rep.programs = n
     if not only: alternating_code_objects(rep, db)
+    if not only or only == 'session': session_histories(rep)
     if not only:
         T = 150 if tier == 'quick' else 900
         specs = [dict(module='checks.h_c30', fn=f, cond_timeout=T, path_timeout=T / 2)
